@@ -11,7 +11,7 @@ import (
 type Finding struct {
 	ID         string   `json:"id"`
 	Properties []string `json:"properties"`
-	Trigger    string   `json:"trigger"`
+	Triggers   []string `json:"triggers"`
 	Site       string   `json:"site"`
 	What       string   `json:"what"`
 	Witness    string   `json:"witness"`
@@ -52,8 +52,10 @@ func (k *Known) Explain(p string, fired []string) string {
 		if !has(f.Properties, p) {
 			continue
 		}
-		if has(fired, f.Trigger) {
-			return f.ID
+		for _, t := range f.Triggers {
+			if has(fired, t) {
+				return f.ID
+			}
 		}
 	}
 	return ""
